@@ -750,6 +750,37 @@ async def run_e2e(case, limit=6):
                             "intact": got == [[code, list(raw)]], "got_n": len(got),
                             "got_head": [[c, x[:12]] for c, x in got[:2]], "leaked": leaked,
                             "dst_state": sess[dst].state, "src_state": sess[src].state})
+        # ---- a late packet: one RTP packet is held back while `late` later ones (also across the 16-bit sequence wrap)
+        # arrive, then delivered.  The SRTP replay window is configured to 1024 packets: it must still be accepted,
+        # and its replay must not.
+        late = None
+        if case.get("late") and sess[0].state == "connected" and sess[1].state == "connected":
+            n_late, src = case["late"]
+            dst = 1 - src
+            link = ice[src].tx
+            base = 65536 - n_late // 2
+            cap = []
+            link.capture = cap
+            pkts = []
+            for i in range(n_late + 1):
+                raw = rtp_packet((base + i) & 0xFFFF, 0x2000 + src, bytes([i & 0xFF, 7, 7, 7]))
+                pkts.append(raw)
+                await sess[src]._send_rtp(raw)
+            link.capture = None
+            n0 = len(events[dst])
+            for d in cap[1:]:
+                link.queue.put_nowait(d)
+            await settle(ice[dst])
+            on_time = len(events[dst]) - n0
+            n1 = len(events[dst])
+            link.queue.put_nowait(cap[0])
+            await settle(ice[dst])
+            got_late = [[rx_code(e), list(e[1])] for e in events[dst][n1:]]
+            n2 = len(events[dst])
+            link.queue.put_nowait(cap[0])
+            await settle(ice[dst])
+            late = {"n": n_late, "on_time": on_time, "late_intact": got_late == [[2, list(pkts[0])]],
+                    "replay_delivered": len(events[dst]) - n2, "datagrams": len(cap)}
         final = [snapshot(sess[j], names) for j in range(2)]
         # guard probes on sides that are not connected
         probes = []
@@ -776,7 +807,7 @@ async def run_e2e(case, limit=6):
                         "policy": [policy_expected(fps[j], certs[1 - j]) for j in range(2)],
                         "common_profile": bool(set(p.openssl_profile for p in sess[0]._srtp_profiles) &
                                                set(p.openssl_profile for p in sess[1]._srtp_profiles)),
-                        "server": server}
+                        "server": server, "late": late}
         out = []
         for j in range(2):
             code = 0 if not timed_out or after_start[j][0] in (2, 3, 4) else 2
@@ -945,7 +976,8 @@ class C04(Check):
             traffic.append([rng.randrange(2), rng.randrange(3), rng.choice([0, 1, 5, 20, 160, 900]), tamper])
         return {"kind": 3, "certs": [ca, cb], "roles": rng.randrange(4), "profiles": profs, "fps": fps,
                 "early": rng.choice([0, 0, 1, 2]), "early_payload": [rng.randrange(256) for _ in range(rng.randrange(1, 30))],
-                "traffic": traffic, "traffic_seed": rng.randrange(1 << 30)}
+                "traffic": traffic, "traffic_seed": rng.randrange(1 << 30),
+                "late": [rng.choice([60, 127, 128, 129, 500, 1000]), rng.randrange(2)] if rng.random() < 0.12 else None}
 
     # ------------------------------------------------------------ implementation
     def impl_run(self, case):
@@ -1263,6 +1295,15 @@ class C04(Check):
             if not t["intact"]:
                 return ("not-intact", f"sent kind {t['kind']} ({t['raw_len']} bytes) {t['raw_head']}.. from side {src}; "
                                       f"side {dst} received {t['got_n']} message(s) {t['got_head']}")
+        lt = rec.get("late")
+        if lt:
+            if lt["on_time"] != lt["n"]:
+                return ("not-intact", f"{lt['n']} consecutive RTP packets sent, {lt['on_time']} received")
+            if not lt["late_intact"]:
+                return ("late-packet-discarded", f"an RTP packet arriving {lt['n']} sequence numbers late (inside the "
+                                                 "1024-packet replay window the transport configures) was not received intact")
+            if lt["replay_delivered"]:
+                return ("replayed-accepted", "the same protected RTP packet was handed to the receiver twice")
         return None
 
     # ------------------------------------------------------------ statistics
